@@ -318,6 +318,8 @@ def shared_state_census(tree: ast.Module) -> list[tuple[str, str, str]]:
                 v = st.value
                 if not _immutable_value(v) or isinstance(st, ast.AugAssign):
                     for t in (st.targets if isinstance(st, ast.Assign) else [st.target]):
+                        if isinstance(t, ast.Name) and t.id in ('__slots__', '__match_args__', '__annotations__'):
+                            continue              # layout declarations, read by the interpreter only
                         out.append((cname, ast.unparse(t)[:30], f'class-level mutable value: {ast.unparse(st)[:60]}'))
     seen_funcs: set[str] = set()
     i = 0
